@@ -479,7 +479,7 @@ def stepFilterOp (d : DState) (op : String) (toks impl : List String) : Option (
     let kv := parseKV rest
     let st ← mkInjected kind kv
     let hist := ((kv.vals "hist").getD []).map (fun v => [v])
-    let d := (d.put id { st := st, hist := hist, base := (kv.nat "count").getD 0,
+    let d := (d.put id { st := st, hist := hist, base := (kv.nat "count").getD 0, tracked := kv.get "T" == some "tracked",
                          nospec := !(kind == "max" || kind == "min" || kind == "debounce" || kind == "schmitt") }).flag "inject"
     some (report d op { model := "ok", impl := implS })
   | "f" :: id :: args => do
